@@ -61,6 +61,9 @@ def gen(rng, tier, run):
         tree['other'] = 'before'
     elif r < 0.45:
         tree['other'] = 'between'
+    # the formatted report written a second time (into another directory), figures written by worker subprocesses
+    tree['twice'] = rng.random() < 0.25
+    tree['workers'] = rng.choice([None, None, None, 2])
     return tree
 
 
@@ -130,18 +133,19 @@ def stubs():
                 out.append(PlotTemplate(subplots=[SubPlotElements(curves=[curve])]))
             return out
 
-    class StubMplPlot:
-        '''stands for matplotlib: save() writes the figure file'''
-        def __init__(self, data, **_kw):
-            self.data = data
-
-        def save(self, path):
-            with open(path, 'wb') as fobj:
-                fobj.write(b'PNG')
-
     rstmod.MplPlot = StubMplPlot
     _STUBS.update(StubTest=StubTest, StubResult=StubResult, StubRepr=StubRepr)
     return _STUBS
+
+
+class StubMplPlot:
+    '''stands for matplotlib: save() writes the figure file (module level: worker subprocesses pickle it)'''
+    def __init__(self, data, **_kw):
+        self.data = data
+
+    def save(self, path):
+        with open(path, 'wb') as fobj:
+            fobj.write(b'PNG')
 
 
 def build(tree, maps):
@@ -170,7 +174,7 @@ def run_impl(case, run):
     out = {}
     try:
         report = build(case, maps)
-        rst = Rst(stb['StubRepr']())
+        rst = Rst(stb['StubRepr'](), n_workers=case.get('workers'))
         def other_report():
             decoy = {'title': 'Another report', 'items': [{'res': [900001, None]}, {'sec': {'title': 'S', 'items': [{'res': [900002, 7]}]}}]}
             try:
@@ -186,6 +190,10 @@ def run_impl(case, run):
             plot_ids = {}
             for fpr, mpl in fmt.plots.items():
                 plot_ids[str(fpr)] = int(mpl.data.subplots[0].curves[0].values[0])
+            if case.get('twice'):
+                # what is read below is the second writing; the first one goes to another directory
+                fmt.write(os.path.join(base, 'first', 'report'))
+                shutil.rmtree(os.path.join(base, 'first'), ignore_errors=True)
             fmt.write(root)
             out['error'] = None
         except Exception as exc:  # pylint: disable=broad-except
@@ -227,7 +235,7 @@ def run_impl(case, run):
 
 
 def run_model(case, driver, run):
-    return driver.ask('report', {k: v for k, v in case.items() if k != 'other'})
+    return driver.ask('report', {k: v for k, v in case.items() if k not in ('other', 'twice', 'workers')})
 
 
 def compare(case, impl, model):
